@@ -25,6 +25,8 @@ from .c02_stages import STAGES, ORDER
 from .util import drop_candidates
 
 HANG_SECONDS = 60
+# Stream methods that change the object they are called on and return it
+IN_PLACE = ("skip", "limit", "append", "map", "filter")
 
 
 class _Hang(BaseException):
@@ -101,6 +103,8 @@ def src_value(kind, sid, i):
     return [0.5, 1.0, 0.25, 2.0, 1.5, 0.75][(sid + i) % 6]
   if kind == "param":
     return 0.1 + ((sid * 3 + i) % 9) * 0.125
+  if kind == "wnd":
+    return 1.0 + (i % 2)
   if kind == "sel":
     return ((sid + i * i) % 3) != 0
   return sid * 1000 + i
@@ -181,7 +185,12 @@ class C02(Property):
         extra = st["extra"]
         if extra == "var-num":
           extra = ("num",) * (len(p["deltas"]) - 1)
-        ins = [node] + [{"src": new_src(k)} for k in extra]
+        ins = [node]
+        for k in extra:
+          sid = new_src(k)
+          if k == "wnd":       # a window iterable has exactly ``size`` items
+            srcs[str(sid)]["len"] = p["size"]
+          ins.append({"src": sid})
         node = {"st": name, "p": p, "in": ins,
                 # how each input is handed over: as it is, wrapped in a
                 # Stream, through a single-use thub, or through a generator
@@ -201,9 +210,11 @@ class C02(Property):
                              (2, "thub")])
     nend = 1
     tails = [None]
+    ends = [[typ, exact]]          # what every endpoint carries
     if fan != "none":
       nend = 2 if fan == "copy" else W.span("nfan", 2, 3)
       tails = []
+      ends = []
       for _ in range(nend):
         if typ == "num" and W.chance("tail", 1, 2):
           cands = [(STAGES[n]["weight"], n) for n in ORDER
@@ -211,12 +222,36 @@ class C02(Property):
                    and (not STAGES[n]["sel"] or exact)]
           name = W.weighted("tstage", cands)
           tails.append({"st": name, "p": STAGES[name]["params"](W)})
+          ends.append([STAGES[name]["prod"], exact and STAGES[name]["exact"]])
         else:
           tails.append(None)
-    return {"srcs": srcs, "base": base, "fan": fan, "tails": tails,
-            # the same pipeline built twice over separate sources: state
-            # kept outside the stage objects (caches, module globals) shows
-            "twin": W.chance("twin", 1, 5)}
+          ends.append([typ, exact])
+    wl = {"srcs": srcs, "base": base, "fan": fan, "tails": tails,
+          # the same pipeline built twice over separate sources: state
+          # kept outside the stage objects (caches, module globals) shows
+          "twin": W.chance("twin", 1, 5)}
+    # stages built LATE: after some demand has already been served, another
+    # stage is put on top of an endpoint object that has a history (peeked,
+    # partly consumed); building it must read nothing either
+    late = []
+    if W.chance("late", 1, 3):
+      at = 0
+      for _ in range(W.span("nlate", 1, 3)):
+        at += 1 + W.choose("late_gap", 3)
+        e = W.choose("late_e", nend)
+        if ends[e][0] != "num":
+          continue
+        cands = [(STAGES[n]["weight"] + (6 if n in IN_PLACE else 0), n)
+                 for n in ORDER
+                 if STAGES[n]["cons"] == "num" and not STAGES[n]["extra"]
+                 and (not STAGES[n]["sel"] or ends[e][1])]
+        name = W.weighted("lstage", cands)
+        late.append({"at": at, "e": e, "st": name,
+                     "p": STAGES[name]["params"](W)})
+        ends[e] = [STAGES[name]["prod"], ends[e][1] and STAGES[name]["exact"]]
+    if late:
+      wl["late"] = late
+    return wl
 
   def shrink_candidates(self, wl):
     # drop the fan-out, drop tails, peel stages, shorten sources
@@ -230,8 +265,14 @@ class C02(Property):
         c["tails"] = list(wl["tails"])
         c["tails"][i] = None
         yield c
+    for i in range(len(wl.get("late") or [])):
+      c = dict(wl)
+      c["late"] = wl["late"][:i] + wl["late"][i + 1:]
+      yield c
     base = wl["base"]
-    if "st" in base and "st" in base["in"][0]:
+    if "late" in wl:
+      pass          # peeling would change what the late stages consume
+    elif "st" in base and "st" in base["in"][0]:
       c = dict(wl)
       c["base"] = base["in"][0]          # peel the outer stage
       yield c
@@ -450,11 +491,21 @@ class C02(Property):
     alive = list(range(len(real_ends)))
     M.SEEN_END[0] = False
     nsteps = 1 + S.choose("nsteps", 12)
+    late = list(wl.get("late") or [])
+    if late:
+      nsteps = max(nsteps, late[-1]["at"] + 2)
     for step in range(nsteps):
       if not alive:
         break
+      while late and late[0]["at"] <= step:
+        self._late_stage(wl, late.pop(0), real_ends, model_ends, real_src,
+                         model_src, events, used, res)
       e = alive[S.choose("endpoint", len(alive))]
-      op = ["next", "take", "peek"][S.choose("op", 3)]
+      # "iter": plain iteration (for / next(iter(s))), which goes round the
+      # Stream methods; offered only when late stages exist so that replays
+      # of older workloads keep their meaning
+      op = ["next", "take", "peek", "iter"][
+        S.choose("op", 4 if "late" in wl else 3)]
       k = 1 if op == "next" else 1 + S.choose("k", 10)
       info["demand"].append((e, op, k))
       # the reference pipeline moves first: it defines the read budget
@@ -477,6 +528,8 @@ class C02(Property):
         got = self._guarded("peek", lambda: r.peek(k))
       elif op == "take":
         got = self._guarded("take", lambda: r.take(k))
+      elif op == "iter":
+        got = self._guarded("iter", lambda: self._iterate(r, k))
       else:
         got = self._guarded("next", lambda: [r.take()])
       res.counters["op." + op] += 1
@@ -520,6 +573,59 @@ class C02(Property):
         res.counters["fault.eof-at"] += 1
         info["nontrivial"] = True
     self._probes(wl, real_src, model_src, res)
+
+  @staticmethod
+  def _iterate(r, k):
+    out = []
+    it = iter(r)
+    for _ in range(k):
+      try:
+        out.append(next(it))
+      except StopIteration:
+        break
+    return out
+
+  def _late_stage(self, wl, lt, real_ends, model_ends, real_src, model_src,
+                  events, used, res):
+    """ Puts one more stage on an endpoint that already served demand. """
+    P = self.P
+    st = STAGES[lt["st"]]
+    e = lt["e"]
+    old_m = model_ends[e]
+
+    def rest():                  # what the old model endpoint still holds
+      while True:
+        if old_m.buf:
+          yield old_m.buf.pop(0)
+        else:
+          v = old_m._pull()
+          if v is M.END:
+            return
+          yield v
+    for sid in real_src:
+      real_src[sid].budget = model_src[sid].delivered
+    r = real_ends[e]
+    got = self._guarded("late construction",
+                        lambda: st["real"](P, [r], lt["p"]))
+    what = "%s built on endpoint %d of %s after some demand" % (
+      lt["st"], e, self.describe(wl))
+    if got[0] == "stall":
+      raise _Mismatch("construction-read:" + lt["st"],
+                      "%s: %s" % (what, got[1]))
+    if got[0] != "ok":
+      raise _Mismatch("construction-raised", "%s raised %s" % (what, got[1]))
+    nr = got[1]
+    real_ends[e] = nr if isinstance(nr, P.ls.Stream) else P.ls.Stream(nr)
+    model_ends[e] = M.MEnd(M.flagged(st["model"]([rest()], lt["p"])))
+    res.counters["probe.stage-built-after-demand"] += 1
+    res.counters["stage." + lt["st"]] += 1
+    events.append("late %s on e%d" % (lt["st"], e))
+    if self.frozen is None and not M.SEEN_END[0]:
+      try:
+        self._compare(wl, real_src, model_src, "construction", events, used)
+      except _Mismatch as mm:
+        raise _Mismatch("construction-read:" + lt["st"],
+                        "%s: %s" % (what, mm.detail))
 
   def _culprit(self, wl):
     node = wl["base"]
